@@ -138,12 +138,18 @@ type c05RSCall struct {
 }
 
 type c05RSTask struct {
-	ID   int
-	Gen  int
-	Base int
+	ID      int
+	Gen     int
+	Base    int
+	StartAt int // index of the event that started it
 	call *c05RSCall
 	done bool
 	res  core.Error
+}
+
+type c05Removal struct {
+	how string
+	in  *c05Instr
 }
 
 type c05Key struct {
@@ -163,7 +169,8 @@ type c05H struct {
 	hooks    *curator.VerifC05Hooks
 	soup     []*c05Instr
 	captured []*c05Instr
-	garbage  map[c05Key]string // removed by a GC delivery and not re-created since -> what removed it
+	garbage  map[c05Key]c05Removal // removed by a GC delivery and not re-created since -> what removed it
+	commits  map[c05Key]*c05RSTask // (server, piece) a reconstruction committed as holder
 	delSnap  map[int]*c05DelSnap
 	live     map[int]bool // blobs that must exist: created, and not deleted (or undelete acknowledged)
 	chunks   []int        // bases of RS chunks (9 pieces each)
@@ -179,7 +186,7 @@ type c05H struct {
 }
 
 func newC05H(d *vc.Driver, id string) *c05H {
-	h := &c05H{d: d, id: id, garbage: map[c05Key]string{}, delSnap: map[int]*c05DelSnap{}, live: map[int]bool{},
+	h := &c05H{d: d, id: id, garbage: map[c05Key]c05Removal{}, commits: map[c05Key]*c05RSTask{}, delSnap: map[int]*c05DelSnap{}, live: map[int]bool{},
 		nextOp: 5000, seen: map[string]bool{}, stats: map[string]int{}}
 	h.hooks = &curator.VerifC05Hooks{GC: h.onGC, RSEncode: h.onRSEncode}
 	d.Extra = func(*vc.Driver) []vc.Action { return h.actions() }
@@ -321,12 +328,28 @@ func (h *c05H) afterStep() {
 		}
 		if named {
 			kind := "regular"
+			det := map[string]interface{}{"ts": k.ts, "tract": k.id.String(), "removed-by": how.how}
 			if k.id.IsRS() {
-				kind = "rs-piece"
+				// WHEN was the instruction computed relative to the repair that committed this holder?
+				//  - before the repair started: the pendingPieces set could not know (a version-less, unfenced gone
+				//    instruction delayed in the network: the F5 family);
+				//  - by the repairing incarnation while the pieces were pending: filterPendingPieces failed.
+				kind = "rs-piece:committing-repair-unknown"
+				if t := h.commits[k]; t != nil {
+					det["repair-op"], det["repair-started-at-event"], det["repair-incarnation"] = t.ID, t.StartAt, t.Gen
+					det["instruction-computed-at-event"], det["instruction-incarnation"] = how.in.AtEvent, how.in.Gen
+					switch {
+					case how.in.AtEvent < t.StartAt:
+						kind = "rs-piece:instruction-computed-before-repair-started"
+					case how.in.Gen == t.Gen:
+						kind = "rs-piece:instruction-computed-while-pending"
+					default:
+						kind = "rs-piece:instruction-computed-by-another-incarnation-during-repair"
+					}
+				}
 			}
 			h.bad("gc-removed-copy-later-named-by-metadata:"+kind,
-				"a GC instruction removed a copy that a creation / repair / encoding in progress then committed into the metadata",
-				map[string]interface{}{"ts": k.ts, "tract": k.id.String(), "removed-by": how})
+				"a GC instruction removed a copy that a creation / repair / encoding in progress then committed into the metadata", det)
 			delete(h.garbage, k)
 		}
 	}
@@ -448,7 +471,7 @@ func (h *c05H) deliver(in *c05Instr, fault bool) {
 				h.stats["removed."+how]++
 				continue // already judged a violation at execution time
 			}
-			h.garbage[p.key] = fmt.Sprintf("%s-instruction %d (leader incarnation %d, computed at event %d)", how, in.N, in.Gen, in.AtEvent)
+			h.garbage[p.key] = c05Removal{how: fmt.Sprintf("%s-instruction %d (leader incarnation %d, computed at event %d)", how, in.N, in.Gen, in.AtEvent), in: in}
 			h.stats["removed."+how]++
 		}
 	}
@@ -607,7 +630,7 @@ func (h *c05H) rsStart(base int, bad []int, spares []int) *c05RSTask {
 	}
 	d.Cl.SetEligible(cur, el)
 	h.nextOp++
-	t := &c05RSTask{ID: h.nextOp, Gen: cur.Gen, Base: base}
+	t := &c05RSTask{ID: h.nextOp, Gen: cur.Gen, Base: base, StartAt: len(d.Events)}
 	h.mu.Lock()
 	h.rsTasks = append(h.rsTasks, t)
 	h.mu.Unlock()
@@ -703,6 +726,13 @@ func (h *c05H) rsReply(t *c05RSTask, lose bool) {
 		obs = append(obs, int64(len(hs)))
 		for _, x := range hs {
 			obs = append(obs, int64(x))
+		}
+	}
+	if done && res == core.NoError {
+		for i, dd := range c.dests {
+			if idx := c.im[c.nsrc+i]; dd.Host != "" && idx >= 0 {
+				h.commits[c05Key{int(dd.ID), c05Piece(t.Base + idx)}] = t
+			}
 		}
 	}
 	t.call = nil
